@@ -128,8 +128,25 @@ class Policy:
                     strip_ref(body.trait_args[0]) if body.trait_args else strip_ref(body.self_ty))
         return None
 
+    def is_accessor(self, callee):
+        """single-block bodies without calls or arithmetic (field getters such as hi()/lo())"""
+        m = callee.mir
+        if len(m["blocks"]) != 1 or m["blocks"][0]["t"]["k"] != "ret" or callee.kind == "Closure":
+            return False
+        for s in m["blocks"][0]["s"]:
+            rv = s.get("rv")
+            if rv is None or not ("use" in rv or "ref" in rv):
+                return False
+            if "use" in rv and "const" in rv["use"]:
+                return False
+        return True
+
     def should_inline(self, caller, callee, depth):
         if callee.ident() in self.keep:
+            return False
+        if self.is_accessor(callee):
+            return True
+        if self.level == "none":
             return False
         if depth >= self.max_depth:
             return False
@@ -362,6 +379,8 @@ class Exec:
             loc = st.alloc()
             st.store[loc] = inner
             return mk("ref", loc, ())
+        if k in ("ptr", "bytes", "slice"):
+            return mk("opaque_const", ty, c.get("item") or "")
         raise Unsupported("constant of type %s" % ty)
 
     def eval_promoted(self, st, fr, pm):
@@ -378,6 +397,14 @@ class Exec:
             if t["k"] == "ret":
                 return st.store[locs[0]]
             if t["k"] == "goto":
+                bi = t["t"]; continue
+            if t["k"] == "call" and "f" in t and t["t"] is not None:
+                args = [self.operand(st, sub, a) for a in t["args"]]
+                name, callee, r = self.callee_name(t["f"])
+                pv = self.primitive_foreign(st, name, r, args) if callee is None else None
+                if pv is None:
+                    pv = mk("call", name, *[self.deref_value(st, a) for a in args])
+                self.write_place(st, sub, t["dest"], pv)
                 bi = t["t"]; continue
             raise Unsupported("promoted with terminator %s" % t["k"])
 
